@@ -185,11 +185,16 @@ def _run_check(prop, tier, plan, base_seed, njobs, repo, scratch, t0):
     known_met = {}
     new_lines = []
     nonrepro = []
+    todo = []
     for sig, vs in sorted(by_sig.items()):
         if sig in known:
             known_met[sig] = len(vs)
             continue
         vs.sort(key=lambda v: (len(v["tape"]) if v["tape"] is not None else 10 ** 9, v["seed"]))
+        todo.append((sig, vs))
+
+    def triage_one(item):
+        sig, vs = item
         v = vs[0]
         path = runner.write_replay(REPLAY_DIR, prop, v["cfg"], v["env"], v)
         rep = json.load(open(path))
@@ -204,16 +209,20 @@ def _run_check(prop, tier, plan, base_seed, njobs, repo, scratch, t0):
             jdump(rep, path)
         # confirm in a fresh interpreter (up to 3 attempts: a violation whose manifestation depends on heap
         # contents -- uninitialised or out-of-bounds reads in compiled code -- is still a violation)
-        ok = False
         for attempt in range(3):
             rep, rec, job = runner.replay_file(path, repo, scratch, tag=f"confirm-{sig_hash(sig)}-{attempt}")
             if _reproduces(rep, rec, job):
-                ok = True
-                break
-        if ok:
-            new_lines.append((sig, path, rep["message"], len(vs)))
-        else:
-            nonrepro.append((sig, path))
+                return ("ok", sig, path, rep["message"], len(vs))
+        return ("nonrepro", sig, path, None, len(vs))
+
+    if todo:
+        from concurrent.futures import ThreadPoolExecutor
+        with ThreadPoolExecutor(max_workers=max(1, min(8, njobs // 2))) as ex:
+            for status, sig, path, msg, n in ex.map(triage_one, todo):
+                if status == "ok":
+                    new_lines.append((sig, path, msg, n))
+                else:
+                    nonrepro.append((sig, path))
 
     # --- evidence
     wall = time.time() - t0
